@@ -16,9 +16,9 @@ ID = "C15"
 RULE = ("case = one resampling call on a generated stack (N snapshots x M grains, volume class incl. zeros/duplicates/dominant), "
         "one law case (large n_samples), or one malformed-shape call; distinct = descriptor digest; non-trivial = stack with "
         "M >= 2 grains and non-uniform volumes")
-ASSUMPTIONS = ["statistical sub-oracles use fixed seeds and thresholds at 6 sigma / chi-square p < 1e-12",
+ASSUMPTIONS = ["statistical sub-oracles use fixed seeds and thresholds at p < 1e-12 (exact binomial tails per grain, chi-square overall)",
                "membership uses unique volumes and orientations per snapshot so that the pairing is unambiguous"]
-TOLERANCES = {"law": "|count - n f| <= 6 sqrt(n f (1-f)) + 1; chi2 p > 1e-12"}
+TOLERANCES = {"law": "per-grain exact binomial tail p > 1e-12; chi2 p > 1e-12"}
 REQUIRED_MONITORS = ["post:shapes", "post:membership_and_pairing", "post:zero_volume_never_drawn", "seed_reproducible",
                      "law:per_grain_band", "law:chi_square", "malformed_rejected"]
 
@@ -43,7 +43,7 @@ def gen_cases(ctx):
     for i in range(ctx.share(ctx.scale(16, 400))):
         rng = ctx.rng(2, i)
         yield {"kind": "law", "seed": int(rng.integers(1 << 31)), "M": int(rng.choice([2, 3, 10, 50, 300])),
-               "vol": str(rng.choice(["unique_dirichlet", "unique_sharp", "zeros", "dominant", "under_normalised"])),
+               "vol": "under_normalised" if i % 3 == 2 else str(rng.choice(["unique_dirichlet", "unique_sharp", "zeros", "dominant"])),
                "n_samples": int(ctx.scale(200000, 1000000)), "rs": int(rng.integers(1 << 31))}
     if ctx.shard == 0:
         yield from malformed_cases()
@@ -85,7 +85,7 @@ def make_stack(rng, N, M, vol):
             f = np.ones(M)
         f = f / f.sum()
         if vol == "under_normalised":
-            f = f * (1 - 1e-7)
+            f = f * (1 - 5e-6)  # normalised to single precision only
         F[s] = f
     return O, F
 
@@ -210,11 +210,16 @@ def check_case(ctx, case):
             j = np.array([h.get(x, -1) for x in oo[0][:, 0, 0]])
         counts = np.bincount(j[j >= 0], minlength=M)
         ctx.check("law:all_draws_identified", int(counts.sum()) == ns, case)
-        band = 6 * np.sqrt(ns * f * (1 - f)) + 1
-        dev = np.abs(counts - ns * f)
-        ctx.extreme("law:max_dev/band", float((dev / band).max()))
-        ctx.check("law:per_grain_band", bool(np.all(dev <= band)), case, worst=float((dev / band).max()),
-                  worst_grain=int(np.argmax(dev / band)))
+        # exact binomial tails per grain (a Gaussian 6-sigma band is not a 1e-12 bound for counts with tiny means)
+        from scipy.stats import binom
+
+        lower = binom.cdf(counts, ns, f)          # P(X <= observed)
+        upper = binom.sf(counts - 1, ns, f)       # P(X >= observed)
+        ptail = np.minimum(lower, upper)
+        ctx.minimum("law:min_binomial_tail_p", float(ptail.min()))
+        wg = int(np.argmin(ptail))
+        ctx.check("law:per_grain_band", bool(ptail.min() > 1e-12), case, worst_grain=wg, count=int(counts[wg]),
+                  expected=float(ns * f[wg]), tail_p=float(ptail[wg]))
         big = ns * f >= 5
         if big.sum() >= 2:
             from scipy.stats import chi2
